@@ -31,6 +31,17 @@ class RiscvCtx:
 
         return val(self.sim.state.register_file.registers[i])
 
+    def check_cell_types(self, e, tag=""):
+        """representation invariant of the register file: every cell is a UInt32.  In symbolic
+        mode the register container claims it at every write ("cell-type:R0..."); the concrete
+        twin emits the same claim here, so that a symbolic counterexample can be confirmed."""
+        if e.mode == "sym":
+            return
+        regs = self.sim.state.register_file.registers
+        bad = [type(r).__name__ for r in list.__iter__(regs) if type(r).__name__ != "UInt32"]
+        if bad:
+            e.claim("cell-type:R0" + tag, False, {"stored": bad[0]})
+
     def lower_mem(self):
         m = self.sim.state.memory
         return getattr(m, "memory", m)  # cache systems keep the backing Memory in .memory
